@@ -492,12 +492,16 @@ class Build(object):
                                                   key_expiration=key_expiration, exportable=exportable))
         self.log.append(('recert', label))
 
-    def third(self, label, t, exportable=None, level=SignatureType.Generic_Cert):
+    def third(self, label, t, exportable=None, level=SignatureType.Generic_Cert, overridden=False):
         u = self.uid_obj(label)
         kw = {}
         if exportable is not None:
             kw['exportable'] = exportable
         sig = self.other.certify(u, level, created=t, **kw)
+        if overridden:
+            # somebody appended an Exportable Certification subpacket saying "exportable" to the UNHASHED area of a local certification (the
+            # signature stays valid: that area is not signed). What the signer signed - not exportable - is what counts.
+            sig = pgpy.PGPSignature.from_blob(append_unhashed(bytes(sig), bytes([2, 4, 1])))
         u |= sig
         self.uids[label]['sigs'].append(self._rec(sig, False, exportable=exportable))
         self.log.append(('third', label, exportable))
@@ -634,6 +638,17 @@ TRUST_OTHER = [b'\xb0\x02\xff\xff', b'\xb0\x01\x05', b'\xb0\x04\x01\x02\x03\x04'
                b'\xb0\x0c\x00\x03\x00gpg\x00\x00\x00\x00\x00\x00']
 
 
+def append_unhashed(raw, subpacket):
+    """the v4 signature packet `raw` with one more subpacket at the end of its unhashed area"""
+    (tag, body, _), = indep.packets(raw)
+    assert tag == 2 and body[0] == 4
+    hl = int.from_bytes(body[4:6], 'big')
+    upos = 6 + hl
+    ul = int.from_bytes(body[upos:upos + 2], 'big')
+    nb = body[:upos] + (ul + len(subpacket)).to_bytes(2, 'big') + body[upos + 2:upos + 2 + ul] + subpacket + body[upos + 2 + ul:]
+    return bytes([0xC2, 0xFF]) + len(nb).to_bytes(4, 'big') + nb
+
+
 def shape_steps(desc):
     """desc -> list of build steps; all timestamps are offsets (seconds) from T0"""
     alg, nu, na, ns, timing, deco, rseed = desc
@@ -665,6 +680,7 @@ def shape_steps(desc):
     menu = []
     for l in labels:
         menu += [('recert', l), ('third', l, None), ('third', l, True), ('third', l, False)]
+    menu += [('third', labels[0], 'local-overridden')]
     if rseed % 2 == 1:
         menu += [('recert_ne', labels[0])]      # a NON-exportable self-certification (relaxes the fixed-point clause)
     menu += [('revoke_uid', labels[-1]), ('direct', 'self', None), ('direct', 'other', None),
@@ -701,7 +717,7 @@ def build_shape(desc):
         elif op == 'recert_ne':
             b.recert(st[1], dt(st[-1]), flags=FLAGSETS[3], prefs=PREFSETS[1], exportable=False)
         elif op == 'third':
-            b.third(st[1], dt(st[-1]), exportable=st[2])
+            b.third(st[1], dt(st[-1]), exportable=False if st[2] == 'local-overridden' else st[2], overridden=st[2] == 'local-overridden')
         elif op == 'revoke_uid':
             b.revoke_uid(st[1], dt(st[-1]))
         elif op == 'direct':
